@@ -109,7 +109,7 @@ def findFeature (s : Store) (tag : Handle) (key : String) : Option (Option ObjId
         | [] => some none
         | l :: ls =>
           match s.optGroup l.2 "data" with
-          | none => none          -- da->name() on a null pointer in the C++
+          | none => go ls         -- a feature whose data array has been deleted is skipped
           | some d => if (blkFind s tag.blk "A" (nameOf s d) (idOf s d)).isNone then none
                       else if nameOf s d == key || idOf s d == key then some (some l.2) else go ls
       go (s.linksOf c)
